@@ -722,6 +722,38 @@ func (s *TermStore) BOr(a, b *Term) *Term {
 	return s.mk(OpBOr, 0, a, b, nil, 0, "")
 }
 
+// knownBits returns (mask of bits with known value, their values).
+func (s *TermStore) knownBits(t *Term) (uint64, uint64) {
+	switch t.op {
+	case OpConst:
+		return mask(t.w), t.k
+	case OpConcat:
+		hm, hv := s.knownBits(t.a)
+		lm, lv := s.knownBits(t.b)
+		return hm<<t.b.w | lm, hv<<t.b.w | lv
+	case OpZExt:
+		m, v := s.knownBits(t.a)
+		return m | (mask(t.w) &^ mask(t.a.w)), v
+	case OpExtract:
+		m, v := s.knownBits(t.a)
+		lo := t.k & 0xffff
+		return (m >> lo) & mask(t.w), (v >> lo) & mask(t.w)
+	case OpOr:
+		am, av := s.knownBits(t.a)
+		bm, bv := s.knownBits(t.b)
+		ones := (am & av) | (bm & bv)
+		zeros := (am &^ av) & (bm &^ bv)
+		return ones | zeros, ones
+	case OpAnd:
+		am, av := s.knownBits(t.a)
+		bm, bv := s.knownBits(t.b)
+		zeros := (am &^ av) | (bm &^ bv)
+		ones := (am & av) & (bm & bv)
+		return ones | zeros, ones
+	}
+	return 0, 0
+}
+
 // LutTerm builds table[idx]; vals has one entry per index value 0..len-1; the
 // index is assumed (by a preceding bounds check) to be < len(vals).
 func (s *TermStore) LutTerm(vals []uint64, vw uint16, idx *Term) *Term {
@@ -749,6 +781,55 @@ func (s *TermStore) LutTerm(vals []uint64, vw uint16, idx *Term) *Term {
 	if idx.w > need {
 		// the preceding bounds check guarantees idx < len(vals) <= 2^need
 		idx = s.Extract(idx, need-1, 0)
+	}
+	// partial evaluation on known index bits
+	if km, kv := s.knownBits(idx); km != 0 {
+		unk := ^km & mask(idx.w)
+		nunk := bits.OnesCount64(unk)
+		if nunk <= 16 {
+			// positions of unknown bits
+			var pos []uint16
+			for i := uint16(0); i < idx.w; i++ {
+				if unk>>i&1 == 1 {
+					pos = append(pos, i)
+				}
+			}
+			sub := make([]uint64, 1<<uint(nunk))
+			for j := range sub {
+				full := kv
+				for bi, p := range pos {
+					if j>>uint(bi)&1 == 1 {
+						full |= 1 << p
+					}
+				}
+				if full < uint64(len(vals)) {
+					sub[j] = vals[full]
+				}
+			}
+			if nunk == 0 {
+				return s.Const(sub[0], vw)
+			}
+			// new index = unknown bits packed, highest position first
+			var nidx *Term
+			for bi := len(pos) - 1; bi >= 0; bi-- {
+				// merge adjacent runs
+				hi := pos[bi]
+				lo := hi
+				for bi > 0 && pos[bi-1] == lo-1 {
+					bi--
+					lo = pos[bi]
+				}
+				piece := s.Extract(idx, hi, lo)
+				if nidx == nil {
+					nidx = piece
+				} else {
+					nidx = s.Concat(nidx, piece)
+				}
+			}
+			if km2, _ := s.knownBits(nidx); km2 == 0 {
+				return s.LutTerm(sub, vw, nidx)
+			}
+		}
 	}
 	var sb strings.Builder
 	fmt.Fprintf(&sb, "%d/%d/%d:", idx.w, vw, len(vals))
